@@ -26,4 +26,8 @@ def run(ctx):
             P.run_model(ctx, "slot_" + "".join(map(str, stakes)), stakes, 0, 7,
                         [P.scn(votes=P.scn_votes([5], ["A"], ["notar", "nf", "skip", "sf", "final"]))],
                         INVS, P.rel_c03, sample=400000, timeout=3000)
+    # code -> spec on real executions: every pool call / Votor step of every correct node of simulated networks
+    # (equivocating and noisy Byzantine validators, loss, crashes, standstill recovery) is a transition of the spec
+    from .. import nodetrace as NT
+    NT.component_sims(ctx, lambda a: "ev.Cert" in a)
     return ctx.finish(rule="every transition of the pool model is one case; non-trivial = distinct (state, action) pairs replayed into PoolImpl")
